@@ -29,7 +29,7 @@ theorem writeObj_ok (s : Sched) (d d' : Dest) (path : Str) (chunks : List Conten
       simp only at h
       have herr := congrArg Prod.fst h
       have hd := congrArg Prod.snd h
-      simp only [Bool.true_and, Bool.or_eq_false_iff] at herr
+      simp only [deferJoin_true, Bool.or_eq_false_iff] at herr
       obtain ⟨hw, hc⟩ := herr
       have hwn : (writeChunks s path 0 chunks).2 = none := by
         cases hh : (writeChunks s path 0 chunks).2 with
@@ -142,6 +142,107 @@ theorem untarAll_ok (s : Sched) (entries : List (Str × List Content)) (d d' : D
           have := ih _ h
           simpa [Facts.allTrue, hf] using this
 
+/-- The test that derives the facts is not vacuous: the stale-variable shape of the recorded
+    copyPath defect, a Close that is not joined at all, and a helper that no longer exists are
+    all rejected. -/
+theorem joinsNamed_rejects :
+    joinsNamed { found := true, named := "retErr", defers := [("retErr", "err", "r.Close()")] } = false ∧
+    joinsNamed { found := true, named := "retErr", defers := [] } = false ∧
+    joinsNamed { found := true, named := "", defers := [("err", "err", "r.Close()")] } = false ∧
+    joinsNamed { found := false, named := "retErr", defers := [("retErr", "retErr", "r.Close()")] } = false := by
+  decide
+
+/-- Why the facts matter: a helper whose defer joins a stale variable OVERWRITES the write error
+    with the (nil) Close error — the failed write is reported as success. -/
+theorem stale_defer_drops_write_error :
+    (writeObj false [⟨"a".toList, .write, 0⟩] ⟨[], []⟩ "a".toList ["x"]).1 = false := by decide
+
+/-- The targets an archive extraction must produce: validated destination path ↦ content. -/
+def untarTargets : List (Str × List Content) → List (Str × Content)
+  | [] => []
+  | (name, cs) :: rest =>
+    match unmapArchivePath name 0 (fun _ => true) with
+    | .ok (some p) =>
+      (match validatePath p with
+        | .ok q => (q, joinContent cs) :: untarTargets rest
+        | .error _ => untarTargets rest)
+    | _ => untarTargets rest
+
+/-- no_silent_failure for Untar, completeness half: success ⇒ every entry that maps to a
+    destination path is there in full (distinct destination paths), nothing else changed. -/
+theorem untarAll_complete (s : Sched) (entries : List (Str × List Content)) (d d' : Dest)
+    (hnodup : ((untarTargets entries).map (·.1)).Nodup)
+    (h : untarAll Facts.allTrue s d entries = (false, d')) :
+    (∀ t ∈ untarTargets entries, d'.mem.find t.1 = some t.2) ∧
+    (∀ k, k ∉ (untarTargets entries).map (·.1) → d'.mem.find k = d.mem.find k) := by
+  induction entries generalizing d with
+  | nil => simp [untarAll] at h; subst h; simp [untarTargets]
+  | cons e rest ih =>
+    obtain ⟨name, cs⟩ := e
+    simp only [untarAll] at h
+    cases hu : unmapArchivePath name 0 (fun _ => true) with
+    | error er => rw [hu] at h; simp at h
+    | ok o =>
+      rw [hu] at h
+      cases o with
+      | none =>
+        have e : untarTargets ((name, cs) :: rest) = untarTargets rest := by simp [untarTargets, hu]
+        rw [e] at hnodup ⊢
+        exact ih d hnodup h
+      | some p =>
+        simp only at h
+        split at h
+        · simp at h
+        · rename_i hne
+          have hw : writeObj true s d p cs = (false, (writeObj true s d p cs).2) := by
+            have : (writeObj true s d p cs).1 = false := by simpa [Facts.allTrue] using hne
+            exact Prod.ext this rfl
+          obtain ⟨_, q, hq, hmem⟩ := writeObj_ok s d _ p cs hw
+          have e : untarTargets ((name, cs) :: rest) = (q, joinContent cs) :: untarTargets rest := by
+            simp [untarTargets, hu, hq]
+          rw [e] at hnodup ⊢
+          simp only [List.map, List.nodup_cons] at hnodup
+          have h' : untarAll Facts.allTrue s (writeObj true s d p cs).2 rest = (false, d') := by
+            simpa [Facts.allTrue] using h
+          obtain ⟨ihall, ihframe⟩ := ih _ hnodup.2 h'
+          refine ⟨?_, ?_⟩
+          · intro t ht
+            rcases List.mem_cons.mp ht with e1 | hr
+            · subst e1
+              rw [ihframe q hnodup.1, hmem, find_cons_eq]
+            · exact ihall t hr
+          · intro k hk
+            simp only [List.map, List.mem_cons, not_or] at hk
+            rw [ihframe k hk.2, hmem, find_cons_ne _ _ _ _ (fun e => hk.1 e.symm), find_erase_ne _ _ _ (fun e => hk.1 e.symm)]
+
+/-- Unzip goes through copyZipFile; with the current facts it behaves exactly like Untar, so
+    `untarAll_ok` and `untarAll_complete` cover it. -/
+theorem unzipAll_eq_untarAll (s : Sched) (entries : List (Str × List Content)) (d : Dest) :
+    unzipAll Facts.allTrue s d entries = untarAll Facts.allTrue s d entries := by
+  induction entries generalizing d with
+  | nil => rfl
+  | cons e rest ih =>
+    obtain ⟨name, cs⟩ := e
+    simp only [unzipAll, untarAll]
+    cases unmapArchivePath name 0 (fun _ => true) with
+    | error er => rfl
+    | ok o =>
+      cases o with
+      | none => exact ih d
+      | some p =>
+        simp only [copyZipFile, Facts.allTrue, deferJoin_true, Bool.or_false]
+        by_cases hc : (writeObj true s d p cs).1 = true
+        · simp [hc]
+        · simp only [hc, if_false]; exact ih _
+
+/-- Tar / Zip into an io.Writer: a failure of the body OR of the archive writer's Close (which
+    writes the trailer) is reported — and with a stale-variable defer the body error would be
+    lost. -/
+theorem archive_writer_reports (body close : Bool) :
+    tarOut Facts.allTrue body close = (body || close) ∧ zipOut Facts.allTrue body close = (body || close) ∧
+    archiveOut false true false = false := by
+  simp [tarOut, zipOut, archiveOut, Facts.allTrue, deferJoin]
+
 /-- The recorded finding (fixed in /repo a3d0d8c): with the pre-fix `copyPath` (its defer joined
     the stale Get error) a failed destination Put is reported as success. -/
 theorem copyPath_counterexample :
@@ -242,6 +343,27 @@ theorem atomic_prefix_old_or_new (old : Option Content) (chunks : List Content) 
     written atomically). -/
 theorem nonatomic_may_truncate :
     plainPrefix (some "OLD") ["AB", "CD"] 2 = some "AB" := by decide
+
+/-- The temp object of an atomic put exists only strictly between createTemp and rename; before
+    the put and after its last step the directory holds no temp object.  (While the put is in
+    progress a `Walk` of a disk bucket can see the temp file — a different object from the one
+    being put; recorded in DESIGN.md.) -/
+theorem atomic_temp_window (old : Option Content) (chunks : List Content) :
+    (atomicPrefix old chunks 0).temp = none ∧
+    (∀ j, chunks.length + 3 ≤ j → (atomicPrefix old chunks j).temp = none) := by
+  refine ⟨rfl, ?_⟩
+  intro j hj
+  have := atomic_success old chunks
+  unfold atomicPrefix atomicSteps
+  have hlen : ([AStep.createTemp] ++ chunks.map AStep.write ++ [AStep.closeFile, AStep.rename]).length ≤ j := by
+    simp; omega
+  rw [List.take_of_length_le hlen]
+  simp only [List.foldl_append, List.foldl_cons, List.foldl_nil, List.foldl_map]
+  have h1 : aStep { final := old, temp := none } AStep.createTemp = { final := old, temp := some "" } := rfl
+  rw [h1]
+  have h2 := wfold_temp old "" chunks
+  unfold wfold at h2
+  simp [aStep, h2]
 
 -- non-vacuity
 
